@@ -1,8 +1,17 @@
-/- Line-protocol driver for the Tool component (stub; see tools/AGENT_GUIDE.md). -/
+/- Line-protocol driver for the Tool component (C20): one request line in, one response line out. -/
+import Driver.Tool
+
+def dispatch (line : String) : String :=
+  let toks := (line.trimAscii.toString.splitOn " ").filter (· ≠ "")
+  match toks with
+  | [] => ""
+  | "TOOL" :: rest => Driver.Tool.handle rest
+  | _ => "BADVERB"
+
 partial def loop (h : IO.FS.Stream) (out : IO.FS.Stream) : IO Unit := do
   let line ← h.getLine
   if line.isEmpty then return ()
-  out.putStrLn "BADVERB"
+  out.putStrLn (dispatch line)
   loop h out
 
 def main : IO Unit := do
